@@ -29,6 +29,7 @@ func init() {
 			{ID: "C10.R9", Floor: 4, Doc: "ring lookups: binary search over the whole ring, result used as found or wrapped to index 0", Run: c10r9},
 			{ID: "C10.R10", Floor: 3, Doc: "ring construction and replica-map maintenance: every host's tokens enter the ring whatever its state; the ring is rebuilt before the replica maps are recomputed from it; other keyspaces' maps are carried over under their own names", Run: c10r10},
 			{ID: "C10.R12", Floor: 1, Doc: "a keyspace whose replica map cannot be recomputed does not keep its old map: updateReplicas carries over the other keyspaces only (=C11.R12)", Run: c11r12},
+			{ID: "C10.R13", Floor: 1, Doc: "a peers row without tokens is not a valid peer: the placement strategies only see hosts that own ranges", Run: c10PeersHaveTokens},
 			{ID: "C10.R11", Floor: 1, Doc: "placement walk: every host stored in a list during an iteration is entered into the seen set before the walk moves on", Run: c10r11},
 		},
 	})
